@@ -40,6 +40,22 @@ func (cl *Client) VerifOutbufLen() int {
 	return cl.Net.outbuf.Len()
 }
 
+// VerifOutbufLenTry is VerifOutbufLen for a harness that may have parked a writer inside the critical section:
+// ok is false when the client lock is held.
+func (cl *Client) VerifOutbufLenTry() (n int, ok bool) {
+	if !cl.TryLock() {
+		return 0, false
+	}
+	defer cl.Unlock()
+	if cl.Net.outbuf == nil {
+		return 0, true
+	}
+	return cl.Net.outbuf.Len(), true
+}
+
+// VerifOutboundLen returns the number of packets waiting in the client's write queue.
+func (cl *Client) VerifOutboundLen() int { return len(cl.State.outbound) }
+
 // VerifAliases returns copies of the inbound and outbound topic alias tables.
 func (cl *Client) VerifAliases() (map[uint16]string, map[string]uint16) {
 	in, out := map[uint16]string{}, map[string]uint16{}
